@@ -114,6 +114,94 @@ def check_verbatim(ctx, texts):
                              {"part": PART, "kind": "verbatim", "text": L.cps(t)})
 
 
+def check_token_spans(ctx, rng, n):
+    """the token list mirrors the source: kinds in order, each token spanning exactly its lexeme, under every line
+    terminator convention (LF, CRLF, old-Mac lone CR, mixed) and with comments closed by any of them or by the end of input."""
+    for _ in range(n):
+        toks = [L.gen_token(rng) for _ in range(rng.choice([1, 2, 3, 5, 8]))]
+        spans = []
+        style = rng.choice(["cr", "cr", "mixed", "lf", "crlf"])
+        text = L.render(rng, toks, style=style, comments=rng.choice([0.3, 0.7]), spans=spans)
+        ctx.count()
+        ctx.stat("token-spans:%s" % style)
+        r = L.real_lex(text)
+        want = [(t[0], a, b) for t, (a, b) in zip(toks, spans)]
+        got = [(x[0], x[1], x[2]) for x in r[1][1:-1]] if r[0] == "ok" else None
+        if got != want:
+            L._reported["spans"] = L._reported.get("spans", 0) + 1
+            if L._reported["spans"] > 5:
+                ctx.stat("token-span-failures-not-shrunk")
+                continue
+            # smallest failing form: two tokens around one separator
+            small = None
+            for sep in ("#c\r", "\r", "#c\n", " ", "#c"):
+                for a, b in zip(toks, toks[1:] + [None]):
+                    t2 = a[1] + sep + (b[1] if b else "")
+                    r2 = L.real_lex(t2)
+                    k2 = [x[0] for x in r2[1][1:-1]] if r2[0] == "ok" else None
+                    if k2 != [a[0]] + ([b[0]] if b else []):
+                        small = (t2, [a[0]] + ([b[0]] if b else []))
+                        break
+                if small:
+                    break
+            t2, kinds = small if small else (text, [t[0] for t in toks])
+            ctx.fail("token-spans-differ:%s" % L.classes(t2, 16), "the token list does not mirror the source (kinds / order / spans)",
+                     {"part": PART, "kind": "token_kinds", "text": L.cps(t2), "expect": kinds})
+        elif len(toks) >= 2:
+            ctx.nontrivial(("spans", text))
+
+
+def _name_slices_ok(node, text):
+    """every Name / IntValue / FloatValue node spans exactly its own text"""
+    if isinstance(node, dict):
+        k = node.get("__kind__")
+        loc = node.get("loc")
+        if k in ("Name", "IntValue", "FloatValue") and loc and text[loc[0]:loc[1]] != str(node.get("value")):
+            return False
+        return all(_name_slices_ok(v, text) for v in node.values())
+    if isinstance(node, (list, tuple)):
+        return all(_name_slices_ok(v, text) for v in node)
+    return True
+
+
+def check_layout_invariance(ctx, rng, n):
+    """the tree does not depend on the ignored characters: a derivation rendered with plain spaces and rendered with
+    comments / commas / BOMs under old-Mac (lone CR), CRLF or mixed line ends parses to the same tree (positions aside),
+    and in the located tree every Name / number node spans its own text."""
+    from gen import document as gd
+    from py_gql.lang import parser as P
+    from py_gql.exc import GraphQLSyntaxError
+    for _ in range(n):
+        ts = rng.random() < 0.5
+        fv = rng.random() < 0.3
+        toks = gd.gen_document(rng, size=rng.randint(1, 3), executable=(not ts) or rng.random() < 0.7, type_system=ts,
+                               fragment_variables=fv, max_depth=rng.randint(1, 3))
+        toks3 = [(c, l, None) for c, l in toks]
+        plain = L.render(rng, toks3, style="lf", comments=0.0)
+        style = rng.choice(["cr", "cr", "mixed", "crlf"])
+        fancy = L.render(rng, toks3, style=style, comments=0.7)
+        ctx.count()
+        ctx.stat("layout-invariance:%s" % style)
+        out = []
+        for text in (plain, fancy):
+            try:
+                out.append(("ok", P.parse(text, no_location=True, allow_type_system=True, experimental_fragment_variables=fv).to_dict()))
+            except GraphQLSyntaxError:
+                out.append(("syntax", None))
+            except Exception as e:  # noqa
+                out.append(("internal:" + type(e).__name__, None))
+        if out[0][0] == "ok":
+            ctx.nontrivial(("layout", fancy))
+        bad = out[0] != out[1]
+        if not bad and out[1][0] == "ok":
+            located = P.parse(fancy, allow_type_system=True, experimental_fragment_variables=fv).to_dict()
+            bad = not _name_slices_ok(located, fancy)
+        if bad:
+            ctx.fail("tree-depends-on-ignored-characters:%s:%s->%s" % (style, out[0][0], out[1][0]),
+                     "the same token sequence parses to a different tree (or is rejected) when the ignored characters change",
+                     {"part": PART, "kind": "layout", "plain": L.cps(plain), "fancy": L.cps(fancy), "fv": fv})
+
+
 def escape_lexemes(rng, n):
     out = []
     for e in list(L.ESCAPES) + list("acdeghijklmopqsvwxyzABFNRTU0'` \n\t"):
@@ -182,6 +270,9 @@ def run(ctx):
         toks = [L.gen_token(rng) for _ in range(rng.choice([1, 2, 4, 7]))]
         texts.append(L.render(rng, toks))
     check_verbatim(ctx, texts)
+    check_token_spans(ctx, rng, ctx.n(500, 5000))
+    if ctx.time_left() > 5:
+        check_layout_invariance(ctx, rng, ctx.n(150, 1500))
 
 
 def replay(ctx, data):
@@ -202,6 +293,20 @@ def replay(ctx, data):
         before = len(ctx.found)
         L.oracle_single_lexemes(ctx, [L.from_cps(inp.get("text", []))], "replay", part=PART)
         return len(ctx.found) == before
+    if kind == "token_kinds":
+        t = L.from_cps(inp.get("text", []))
+        r = L.real_lex(t)
+        return r[0] == "ok" and [x[0] for x in r[1][1:-1]] == inp.get("expect")
+    if kind == "layout":
+        from py_gql.lang import parser as P
+        res = []
+        for key in ("plain", "fancy"):
+            try:
+                res.append(P.parse(L.from_cps(inp.get(key, [])), no_location=True, allow_type_system=True,
+                                   experimental_fragment_variables=bool(inp.get("fv"))).to_dict())
+            except Exception as e:  # noqa
+                res.append(type(e).__name__)
+        return res[0] == res[1]
     if kind == "verbatim":
         before = len(ctx.found)
         check_verbatim(ctx, [L.from_cps(inp.get("text", []))])
